@@ -1133,7 +1133,7 @@ typedef enum {
 } StringKind;
 
 static StringKind getStringKind(Token *tok) {
-  if (!strcmp(tok->loc, "u8"))
+  if (!strncmp(tok->loc, "u8", 2))
     return STR_UTF8;
 
   switch (tok->loc[0]) {
